@@ -163,13 +163,14 @@ def _worker(args):
 
 
 def write_evidence(prop, tier, seed, level, coverage, assumptions, wall, violations):
-    os.makedirs(os.path.join(VERIF, "evidence"), exist_ok=True)
+    evdir = os.environ.get("VERIF_EVIDENCE_DIR") or os.path.join(VERIF, "evidence")    # override: evaluation of seeded changes
+    os.makedirs(evdir, exist_ok=True)
     ev = {"property_id": prop, "tier": tier, "seed": seed, "level": level, "coverage": coverage,
           "assumptions": assumptions, "wall_s": round(wall, 2), "violations": violations}
-    tmp = os.path.join(VERIF, "evidence", prop + ".json.tmp")
+    tmp = os.path.join(evdir, prop + ".json.tmp")
     with open(tmp, "w") as f:
         json.dump(ev, f, indent=1, default=str)
-    os.replace(tmp, os.path.join(VERIF, "evidence", prop + ".json"))
+    os.replace(tmp, os.path.join(evdir, prop + ".json"))
 
 
 def main(modname, prop, level="exploration", variants=("asan",), default_workers=6, nt_floor=10):
@@ -276,7 +277,9 @@ def main(modname, prop, level="exploration", variants=("asan",), default_workers
                 last = probs
         if nfail == 3:
             h = case_hash(fl["case"])
-            path = os.path.join(VERIF, "replays", prop, "found-%s.json" % h)
+            fdir = os.environ.get("VERIF_FOUND_DIR") or os.path.join(VERIF, "replays", prop)
+            os.makedirs(fdir, exist_ok=True)
+            path = os.path.join(fdir, "found-%s.json" % h)
             script = None
             try:
                 script = mod.case_script(fl["case"]) if hasattr(mod, "case_script") else None
